@@ -76,6 +76,10 @@ class C16(Check):
                             rng.choice(["sid_first", "host_first"])])
             elif x < 0.87:
                 ops.append(["typed_bytes", rng.randrange(len(TYPED)), rng.randrange(nid), rng.randrange(1000)])
+            elif x < 0.90:
+                # other library objects come to life in the same process (a Diameter node is configured,
+                # base messages are built): none of that may disturb the generator
+                ops.append(["new_node", rng.randrange(nid)])
             else:
                 if style == "frozen":
                     dt = 0.0
@@ -210,6 +214,14 @@ class C16(Check):
                         if ent[0].session_id_avp.data not in raw:
                             violations.append({"clause": "message carries the regenerated Session-Id",
                                                "sig": "C16/reorigin-not-in-dump", "detail": {"op": opi}})
+                    elif kind == "new_node":
+                        from bromelia.setup import Diameter
+                        Diameter(config={"MODE": "CLIENT", "APPLICATIONS": [], "LOCAL_NODE_HOSTNAME": ids[op[1]],
+                                         "LOCAL_NODE_REALM": "realm.local", "LOCAL_NODE_IP_ADDRESS": "127.0.0.1",
+                                         "LOCAL_NODE_PORT": 3868, "PEER_NODE_HOSTNAME": "peer.remote",
+                                         "PEER_NODE_REALM": "realm.remote", "PEER_NODE_IP_ADDRESS": "127.0.0.1",
+                                         "PEER_NODE_PORT": 3868, "WATCHDOG_TIMEOUT": 30})
+                        hist_sig.append("n")
                     elif kind in ("reorigin_given", "typed_bytes"):
                         st0 = (getattr(SessionHandler, "init", None), getattr(SessionHandler, "id", None))
                         if kind == "typed_bytes":
